@@ -4,7 +4,7 @@ CONSTANTS
   OneLen = 6
   MaxLen = 4
   CompLen = 3
-  BigN = 60
-  BigM = 50
+  BigN = 40
+  BigM = 40
 INVARIANTS KernelEq AlgebraLaws CompKernel CompLaws Emit
 CHECK_DEADLOCK FALSE
